@@ -35,6 +35,9 @@ type Closure struct {
 
 type FnRef struct{ Fn *ssa.Function }
 
+// MergedFn: one of several function values (they met at a control-flow join).
+type MergedFn struct{ Alts []Value }
+
 type Tuple struct{ Vs []Value }
 
 type Root interface{}
@@ -144,6 +147,7 @@ type loopInfo struct {
 	spec    *LoopSpec
 	variant string // value at head
 	headSt  *State
+	lexStart, lexEnd token.Pos
 }
 
 func (ex *Exec) assume(st *State, cond string) {
@@ -306,7 +310,7 @@ func (ex *Exec) asTerm(v Value, t types.Type) Term {
 		return x
 	case Ptr:
 		panic(unsupported("pointer to a local used as a first-class value (" + t.String() + ")"))
-	case Closure, FnRef:
+	case Closure, FnRef, MergedFn:
 		// function values are opaque when stored
 		return Term{S: ex.vc.fresh("fnval", "Int"), T: t}
 	case nil:
